@@ -241,7 +241,12 @@ static Token *copy_line(Token **rest, Token *tok) {
 
 static Token *new_num_token(int val, Token *tmpl) {
   char *buf = format("%d\n", val);
-  return tokenize(new_file(tmpl->file->name, tmpl->file->file_no, buf));
+  Token *tok = tokenize(new_file("<built-in>", tmpl->file->file_no, buf));
+
+  // The number stands in for `tmpl`; diagnostics refer to that token.
+  // (A copy, because the caller may overwrite `tmpl` with the result.)
+  tok->origin = copy_token(tmpl);
+  return tok;
 }
 
 static Token *read_const_expr(Token **rest, Token *tok) {
